@@ -662,6 +662,7 @@ class PCBO(PUBO):
         # use self.__class__ here because PCSO uses this code as well.
         d = super(self.__class__, self).__round__(ndigits)
         d._constraints = self.constraints
+        d._ancilla = self._ancilla
         return d
 
     # override
